@@ -205,6 +205,56 @@ theorem safe_of_no_double_underscore (k : Kind) (s : Str) (hk : k ≠ .gene)
     (h : noUUd (k.prefix ++ s) = true) : SafeId k s = true := by
   cases k <;> simp_all [SafeId]
 
+/-- escaped text is made of the identifier's own plain characters, underscores and digits -/
+theorem esc_chars (s : Str) (c : Char) (h : c ∈ esc s) : c ∈ s ∨ c = '_' ∨ c.isDigit = true := by
+  induction s with
+  | nil => simp [esc] at h
+  | cons a s ih =>
+    simp only [esc, List.mem_append] at h
+    rcases h with h | h
+    · unfold escChar at h
+      split at h
+      · simp at h; exact Or.inl (by simp [h])
+      · simp only [List.mem_cons, List.mem_append, List.mem_nil_iff, or_false] at h
+        rcases h with h | h | h | h | h
+        · exact Or.inr (Or.inl h)
+        · exact Or.inr (Or.inl h)
+        · exact Or.inr (Or.inr (digits_all a.toNat c h))
+        · exact Or.inr (Or.inl h)
+        · exact Or.inr (Or.inl h)
+    · rcases ih h with h' | h'
+      · exact Or.inl (List.mem_cons_of_mem _ h')
+      · exact Or.inr h'
+
+/-- text without a capital `S` contains no `__SBML_DOT__` -/
+theorem dotFree_of_no_S (t : Str) (h : 'S' ∉ t) : dotFree t = true := by
+  induction t with
+  | nil => rfl
+  | cons c rest ih =>
+    have hrest : 'S' ∉ rest := fun hm => h (List.mem_cons_of_mem _ hm)
+    simp only [dotFree, Bool.and_eq_true, Bool.not_eq_true']
+    refine ⟨?_, ih hrest⟩
+    cases hp : sbmlDot.isPrefixOf (c :: rest) with
+    | false => rfl
+    | true =>
+      exfalso
+      have hpre : sbmlDot <+: (c :: rest) := List.isPrefixOf_iff_prefix.mp hp
+      exact h (hpre.subset (by decide))
+
+/-- a readable sufficient condition for gene identifiers: no `__<digit>` once the prefix is attached, and no capital `S` anywhere -/
+theorem safe_gene_of_no_S (s : Str) (hU : noUUd (Kind.gene.prefix ++ s) = true) (hS : 'S' ∉ s) : SafeId .gene s = true := by
+  simp only [SafeId, Bool.and_eq_true, Bool.or_eq_true]
+  refine ⟨hU, Or.inr (dotFree_of_no_S _ ?_)⟩
+  intro hm
+  simp only [Kind.prefix, List.cons_append, List.nil_append, List.mem_cons] at hm
+  rcases hm with hm | hm | hm
+  · exact absurd hm (by decide)
+  · exact absurd hm (by decide)
+  · rcases esc_chars s 'S' hm with h | h | h
+    · exact hS h
+    · exact absurd h (by decide)
+    · exact absurd h (by decide)
+
 /-! ### non-vacuity and the complement -/
 
 example : SafeId .reaction "EX_glc(e)".toList = true := by decide
